@@ -394,7 +394,7 @@ def parse_kani_log(txt):
         if m:
             r['verdict'] = m.group(1)
             r['verdict_note'] = m.group(2).strip()
-        for cm in re.finditer(r'^Check (\d+): (\S+)\n\s*- Status: (\S+)\n\s*- Description: "(.*?)"\n(?:\s*- Location: ([^\n]*)\n)?', body, re.M | re.S):
+        for cm in re.finditer(r'^Check (\d+): ([^\n]+)\n\s*- Status: (\S+)\n\s*- Description: "(.*?)"\n(?:\s*- Location: ([^\n]*)\n)?', body, re.M | re.S):
             chk = {'id': cm.group(2), 'status': cm.group(3), 'desc': cm.group(4), 'loc': (cm.group(5) or '').strip()}
             r['checks'].append(chk)
             if '.cover.' in chk['id'] or chk['status'] in ('SATISFIED', 'UNSATISFIABLE'):
